@@ -113,6 +113,7 @@ class Ev:
                     else:
                         raise Undecided("missing argument of local function " + st.name)
                 return sub.run(body)
+            local_fn._ev_closure = True
             self.env[st.name] = local_fn
             return
         if isinstance(st, ast.Assert):
@@ -371,11 +372,14 @@ class Ev:
                 for p, v in zip(params, vals):
                     sub.env[p] = v
                 return sub.ev(e.body)
+            fn._ev_closure = True
             return fn
         if isinstance(e, (ast.GeneratorExp, ast.ListComp)):
             out = []
             self._comp(e, 0, out)
-            return out
+            # a generator expression is an iterator (next() works, len() does not); it is evaluated eagerly here,
+            # which is the same for the side-effect-free element expressions the interpreter accepts
+            return iter(out) if isinstance(e, ast.GeneratorExp) else out
         if isinstance(e, ast.SetComp):
             out = []
             self._comp(e, 0, out)
@@ -415,6 +419,8 @@ class Ev:
                 recv = self.ev(e.func.value)
                 if isinstance(recv, (list, set, tuple, dict)) and hasattr(recv, e.func.attr):
                     return getattr(recv, e.func.attr)(*args, **kwargs)
+            if isinstance(e.func, ast.Name) and getattr(self.env.get(e.func.id), "_ev_closure", False):
+                return self.env[e.func.id](*args, **kwargs)          # local function / lambda bound to a name
             if isinstance(e.func, ast.Attribute) and e.func.attr in NUMBER_METHODS:
                 recv = self.ev(e.func.value)
                 if isinstance(recv, (int, float, Fr)) and not isinstance(recv, bool) and hasattr(recv, e.func.attr):
